@@ -331,6 +331,90 @@ def coo_trilinear(ctx):
 UNITS["coo/trilinear"] = coo_trilinear
 
 
+def params_all_forms(ctx):
+    """PARAMS for every form type, with user parameters whose names collide with the defaults (x, h, n)"""
+    import skfem.assembly.form.bilinear_form as BF
+    import skfem.assembly.form.linear_form as LF
+    import skfem.assembly.form.functional as FU
+    import skfem.assembly.form.trilinear_form as TF
+    cvec, xvec = np.arange(5.0), np.arange(3.0)
+    for name, mod, cls, nb in (("bilinear", BF, "BilinearForm", 2), ("linear", LF, "LinearForm", 1), ("functional", FU, "Functional", 1), ("trilinear", TF, "TrilinearForm", 3)):
+        for entry in (("_assemble", "elemental") if name == "functional" else ("_assemble",)):
+            with sarr.index_context() as c:
+                nt, nq = _ctx_common(c)
+                bases = [StubBasis(c, t_, nt, nq) for t_ in ("u", "v", "w")[:nb]]
+                for b_ in bases:
+                    b_.params = {"x": "default-x-" + b_.tag, "h": "default-h-" + b_.tag, "n": "default-n-" + b_.tag}
+                form = FormStub(nt, nq)
+                kw = dict(c=cvec, s=2.5, h=0.37, x=xvec, idx=(0, 1))
+                f = getattr(mod, cls)(form)
+                fn = ctx.function(getattr(getattr(mod, cls), entry))
+                with sarr.mode_i([mod]):
+                    getattr(f, entry)(*bases, **kw)
+                lead = bases[0]
+                want = dict(lead.default_parameters(), c=("interpolated-by", lead.tag, id(cvec)), s=2.5, h=0.37, x=("interpolated-by", lead.tag, id(xvec)), idx=(0, 1))
+                ws = [cl[1] for cl in form.calls]
+                ctx.fact("params/%s/%s" % (name, entry), fn, bool(ws) and all(w == want for w in ws), "w = %s, expected %s" % (ws[:1], want),
+                         clause="w == default_parameters() of the integrating basis OVERLAID with the caller's parameters (a caller's x / h / n wins over the default), "
+                                "coefficient vectors interpolated by that basis; identical for every form type", backend="symbolic-execution",
+                         replay=dict(kind="coo", form=name, clause="params"))
+
+
+UNITS["params/all-forms"] = params_all_forms
+
+
+def asm_lists(ctx):
+    """asm(form, [bases...], ...) == to(form.coo_data(*combination, idx=its index tuple, **the caller's kwargs) for every combination, in product order)"""
+    import skfem.assembly as A
+    from skfem.assembly.form.form import Form
+    fn = ctx.function(A.asm)
+    rec = []
+
+    class Rec(Form):
+        def coo_data(self, *args, **kw):
+            rec.append((args, kw))
+            return ("coo", len(rec) - 1)
+    r = Rec(lambda u, v, w: None)
+    cvec = np.arange(4.0)
+    b = ["B0", "B1", "B2"]
+    for case, args in (("one-list", ([b[0], b[1]],)), ("two-lists", ([b[0], b[1]], [b[1], b[2], b[0]])), ("list-and-single", ([b[0], b[1]], b[2])), ("singles", (b[0], b[1]))):
+        del rec[:]
+        out = A.asm(r, *args, to=list, k=cvec, s=1.5)
+        lists = [a if isinstance(a, list) else [a] for a in args]
+        import itertools as it
+        want = [(combo, idx) for idx, combo in zip(it.product(*[range(len(x)) for x in lists]), it.product(*lists))]
+        ok = (len(rec) == len(want) and out == [("coo", n) for n in range(len(want))]
+              and all(rec[n][0] == want[n][0] and rec[n][1].get("idx") == want[n][1] and rec[n][1].get("k") is cvec and rec[n][1].get("s") == 1.5 and set(rec[n][1]) == {"idx", "k", "s"}
+                      for n in range(len(want))))
+        ctx.fact("asm/lists/%s" % case, fn, bool(ok), "asm does not hand every combination of bases, with its index tuple and the caller's own (un-normalised) parameters, to coo_data: %s" % rec[:2],
+                 clause="asm(form, *lists, **kw) == to(form.coo_data(*combo, idx=index, **kw) for (index, combo) in product order); kw objects are passed as given, "
+                        "so that each combination normalises them against ITS OWN basis", backend="path-execution", replay=dict(kind="coo", form="asm", clause="lists"))
+    # plain callables are wrapped by their arity
+    seen = {}
+    saved = {n: getattr(A, n) for n in ("Functional", "LinearForm", "BilinearForm", "TrilinearForm")}
+    try:
+        for n in saved:
+            def mk(n=n):
+                class W(Rec):
+                    def __init__(self, form):
+                        Form.__init__(self, form)
+                        seen["cls"] = n
+                return W
+            setattr(A, n, mk())
+        okw = True
+        for fun, want in ((lambda w: 0, "Functional"), (lambda v, w: 0, "LinearForm"), (lambda u, v, w: 0, "BilinearForm"), (lambda u, v, z, w: 0, "TrilinearForm")):
+            seen.clear()
+            A.asm(fun, "B0", to=list)
+            okw &= seen.get("cls") == want
+    finally:
+        for n, v in saved.items():
+            setattr(A, n, v)
+    ctx.fact("asm/wrap-by-arity", fn, bool(okw), "a plain function must be wrapped as Functional / LinearForm / BilinearForm / TrilinearForm by its number of arguments", backend="path-execution")
+
+
+UNITS["asm/lists"] = asm_lists
+
+
 def standin_assembly(ctx):
     import time
     from skv import core
